@@ -118,12 +118,33 @@ pub fn large_input(kind: &str, seed: u64) -> Option<(Vec<String>, Settings)> {
         "long_words_noanchors" => ((0..6).map(|_| word(&mut rng, &ab, n)).collect(), Settings::new(WORD | NOSTART | NOEND)),
         "astral_surrogates_noanchors" => ((0..n).map(|_| { let k = 1 + rng.below(6); word(&mut rng, &gen::alphabet("astral"), k) }).collect(), Settings::new(ESC | SURR | NOSTART | NOEND | REP)),
         "colour_verbose" => ((0..n).map(|_| { let k = 1 + rng.below(8); word(&mut rng, &gen::alphabet("sgr"), k) }).collect(), Settings::new(COLOR | VERB | NOSTART | NOEND)),
+        // a few prefix-related short test cases (so that the first self-check fails) plus 16 long ones with a
+        // class conversion and no end anchor: the candidate expressions approach the regex crate's size limit
+        "class_noend_mix" => {
+            let mut t: Vec<String> = vec!["+".into(), "+=".into(), "=+".into(), "=+=+".into()];
+            for _ in 0..16 {
+                t.push(format!("{}{}{}", word(&mut rng, &mixed, 2), "a".repeat(n), word(&mut rng, &mixed, 2)));
+            }
+            (t, Settings::new(WORD | NOEND))
+        }
+        "class_noend_mix_digits" => {
+            let mut t: Vec<String> = vec!["1".into(), "12".into(), "21".into(), "2121".into()];
+            for _ in 0..12 {
+                t.push(format!("{}{}{}", word(&mut rng, &ab, 2), "7".repeat(n), word(&mut rng, &ab, 3)));
+            }
+            (t, Settings::new(DIGIT | NSPACE | NOSTART | NOEND))
+        }
         "graphemes_long" => ((0..3).map(|_| word(&mut rng, &gen::alphabet("graph"), n)).collect(), Settings::new(REP | ESC)),
         _ => return None,
     })
 }
 
-pub const LARGE_QUICK: [&str; 13] = [
+pub const LARGE_QUICK: [&str; 18] = [
+    "class_noend_mix:12",
+    "class_noend_mix:24",
+    "class_noend_mix:32",
+    "class_noend_mix:48",
+    "class_noend_mix_digits:40",
     "many_short:2000",
     "many_short_rep_ci:2000",
     "few_long:500",
@@ -139,7 +160,12 @@ pub const LARGE_QUICK: [&str; 13] = [
     "graphemes_long:300",
 ];
 
-pub const LARGE_THOROUGH: [&str; 13] = [
+pub const LARGE_THOROUGH: [&str; 18] = [
+    "class_noend_mix:20",
+    "class_noend_mix:28",
+    "class_noend_mix:40",
+    "class_noend_mix:80",
+    "class_noend_mix_digits:120",
     "many_short:6000",
     "many_short_rep_ci:8000",
     "few_long:1200",
@@ -345,6 +371,17 @@ pub fn run(ctx: &Ctx) -> i32 {
     par_for(&ctx.run, det.len() * det_settings.len(), |i, st| {
         st.count("blank_and_cluster_repeat_cases");
         check_case(ctx, st, &det[i % det.len()], Settings::new(det_settings[i / det.len()]));
+    });
+    // periods nested 3, 4 and 5 levels deep around every metacharacter
+    let metas = gen::alphabet("meta");
+    par_for(&ctx.run, metas.len() * 3 * 4, |i, st| {
+        let mut rng = Rng::new(seed, 0x73_0000 + i as u64);
+        let m = metas[i % metas.len()].clone();
+        let depth = 3 + (i / metas.len()) % 3;
+        let t = gen::nested_periods(&mut rng, &[m.clone(), "a".to_string(), m, "b".to_string()], depth);
+        let f = [REP, REP | ESC, REP | VERB | CAP, REP | DIGIT | NWORD][i / (metas.len() * 3)];
+        st.count("deeply_nested_periods");
+        check_case(ctx, st, &[t], Settings::new(f));
     });
     // builder histories: setters repeated / overridden, builds interleaved, clones — the result of every build
     // must be valid for the settings accumulated at that point
